@@ -24,7 +24,8 @@ APIS = {1: ("ec_seckey_verify / negate / tweak_add / tweak_mul (key secret, twea
         8: ("musig_partial_sign (secret nonce scalars and secret key secret; bound key, cache, session public)", []),
         9: ("musig_nonce_gen (session randomness and secret key secret)", []),
         10: ("ecdsa_adaptor_decrypt (decryption key secret)", []),
-        12: ("ellswift_xdh with the BIP-324 hash (secret key secret, encodings public)", [])}
+        12: ("ellswift_xdh with the BIP-324 hash (secret key secret, encodings public)", []),
+        13: ("sign-to-contract path of ecdsa_sign_inner (opening from the original nonce point, nonce tweak): key and caller-supplied nonce secret, message and host data public", [])}
 for n, (what, d) in APIS.items():
     QUERIES.append(Query("api_%02d" % n, S, "harness_api", defs=["API=%d" % n, "CT_UF"] + d, unwind=140, unwindset=["secp256k1_ecdsa_sign_inner.0:3", "nonce_function_rfc6979_impl.0:3", "secp256k1_sha256_transform.0:5"], timeout=2400, instrument=BR, mem_gb=14,
                          desc=what + ": equal branch-decision strings for two independent secrets; variable-time routines only on public operands; multiplicative kernels, ecmult_gen and ecmult_const summarised as uninterpreted functions of their operands (equal on public data, free on secret-dependent data)",
